@@ -610,6 +610,13 @@ func (s *sim) close() {
 		return
 	}
 	s.closed = true
+	// every daemon panic met by any simulation is classified by its site, so that the sites the
+	// other properties' histories reach can be compared with what the C20 check lists
+	s.mu.Lock()
+	for _, p := range s.panics {
+		s.c.Class("daemon-panic@" + c20Site(p.Stack))
+	}
+	s.mu.Unlock()
 	for i := 0; i < 400; i++ {
 		busy := false
 		for _, p := range s.all {
@@ -747,6 +754,11 @@ func (s *sim) report(sig, format string, args ...any) {
 
 // raise turns the first finding recorded by a hook into a violation (on the case's goroutine).
 func (s *sim) raise() {
+	if os.Getenv("VERIF_PANIC_IS_VIOLATION") != "" {
+		// the C20 check re-runs other properties' histories with this set: a daemon panic is then
+		// the violation, identified by its site
+		s.c20RaisePanics()
+	}
 	s.mu.Lock()
 	var f *finding
 	if len(s.found) > 0 {
